@@ -1,0 +1,29 @@
+//go:build verif
+
+package utils
+
+// Read-only accessors used by the C07 correspondence harness (/verif/go/cmd/c07): the W3C date reader of
+// GetHtmlMetadata (<meta name=dcterms.created / dcterms.modified>).
+
+// VerifC07W3cDateGroups returns whether w3CDateRe matches s and the captured groups
+// year, month, day, hour, minute, second, tzHour, tzMinute ("" for a group that did not participate).
+func VerifC07W3cDateGroups(s string) (groups [8]string, matched bool) {
+	match := w3CDateRe.FindStringSubmatch(s)
+	if len(match) == 0 {
+		return groups, false
+	}
+	for i, name := range [8]string{"year", "month", "day", "hour", "minute", "second", "tzHour", "tzMinute"} {
+		groups[i] = match[W3CDateReGroupsIndexes[name]]
+	}
+	return groups, true
+}
+
+// VerifC07ParseW3cDate exposes parseW3cDate: the instant as Unix seconds and the zone offset in seconds.
+func VerifC07ParseW3cDate(s string) (unix int64, offset int, err error) {
+	t, err := parseW3cDate("dcterms.created", s)
+	if err != nil {
+		return 0, 0, err
+	}
+	_, offset = t.Zone()
+	return t.Unix(), offset, nil
+}
